@@ -91,12 +91,30 @@ class WipeClient(ir.Client):
         return ()
 
     def eval(self, e, st, env, node):
+        # the length of the wipe is read from the block's header word: it must still be the word blobCreate/blobResize
+        # stored, so nothing may have been written through a pointer on the way (a store into memory, or a call that
+        # receives a writable pointer) before the length is computed
+        dirty = None
+        for n in walk(e):
+            if n.get("k") == "Bin" and n.get("op") in ir.ASSIGN_OPS and strip(n["x"]).get("k") != "Ref":
+                dirty = "store `%s`" % show(n)[:40]
+            elif n.get("k") == "Un" and n.get("op") in ("pre++", "pre--", "post++", "post--") and strip(n["e"]).get("k") != "Ref":
+                dirty = "store `%s`" % show(n)[:40]
+            elif n.get("k") == "Call" and n.get("callee") not in ("memWipe", "memFree", "utilAssert", "blobIsValid", "memIsValid"):
+                if any(strip(a).get("p") and not strip(a).get("pc") and ir.int_val(a) is None for a in n["a"]):
+                    dirty = "call %s" % n.get("callee")
         for c in ir.calls(e):
             cn = c.get("callee")
             if cn == "memWipe":
-                st = tuple(sorted(set(st) | {(norm(c["a"][0], (), self.syms), norm(c["a"][1], (), self.syms))}))
+                ln = norm(c["a"][1], (), self.syms)
+                was = [p for p in st if p[0] == "#dirty"]
+                if was:
+                    ln = "<header possibly overwritten by %s> %s" % (was[0][1], ln)
+                st = tuple(sorted(set(st) | {(norm(c["a"][0], (), self.syms), ln)}))
             elif cn == "memFree":
                 self.report(c, st, node)
+        if dirty is not None and not any(p[0] == "#dirty" for p in st):
+            st = tuple(sorted(set(st) | {("#dirty", dirty)}))
         for l, rhs, op in ir.assigned_vars(e):
             # any write to a variable mentioned in a wiped pair invalidates it
             st = tuple(p for p in st if l["n"] not in re.findall(r"[A-Za-z_]\w*", p[0] + p[1]))
